@@ -19,6 +19,7 @@ imports = ac.imports
 
 AXES = [
     ('raw', [True, False]),
+    ('raw_format', ['dat', 'cbin']),     # compressed recording of 9 chunks: more than one decompression batch
     ('features', ['sparse', 'absent', 'noind', 'sparse_rows']),
     ('curation', ['none', 'merge_split', 'reassign', 'swap', 'exchange']),
     ('probes', ['absent', 'zeros']),
@@ -76,6 +77,7 @@ def make_spec(cfg, fill):
     if cfg.get('wide'):
         spec.update(n_channels=14, geometry='col14')
     spec['nsw'] = cfg.get('nsw', 4)
+    spec['raw_format'] = cfg.get('raw_format', 'dat')
     if cfg.get('late_spike'):
         spec['spike_samples'] = [0, 9, 16, 23, 30, 37, 44, spec['n_raw'] + 5]    # and the first at sample 0
     return spec
@@ -227,7 +229,8 @@ def run_case(case, acc, order):
 
 
 def explore(ctx):
-    K = len(AXES) if ctx.thorough else 4
+    # (the full product of the 18 axes is 2.9 million conversions, about 4 h: the thorough tier stops at 6)
+    K = 6 if ctx.thorough else 4
     cases = [{'cfg': c, 'fill': ctx.seed} for c in configs(K)]
     ctx.run_cases(run_case, cases, sweep='deviation-bounded')
     ctx.bounds = {'axes': {a: [str(x) for x in v] for a, v in AXES}, 'max_deviations': K}
